@@ -15,7 +15,7 @@ for l in open(log):
     if m:
         results[m.group(1)] = dict(pkg=m.group(2), without=m.group(3).strip(), with_=m.group(4).strip(), suite=m.group(5).strip())
 
-for n in sorted(os.listdir(root)):
+for n in sorted(x for x in os.listdir(root) if os.path.isdir(os.path.join(root, x))):
     for cid in sorted(os.listdir(os.path.join(root, n))):
         if only and cid not in only:
             continue
